@@ -14,6 +14,10 @@
 #include "faultinj/faultinj.h"
 #include <signal.h>
 #include <unistd.h>
+#include <fcntl.h>
+#include <sys/socket.h>
+#include <netinet/in.h>
+#include <arpa/inet.h>
 
 #include "muggle/c/muggle_c.h"
 
@@ -39,7 +43,10 @@ static muggle_queue_t g_q;
 static muggle_trie_t g_trie;
 static muggle_event_signal_t g_sig;
 static muggle_event_loop_t *g_ev;
-static muggle_event_context_t g_ctx;
+static muggle_event_context_t g_ctx, g_ctx2;
+static muggle_socket_evloop_pipe_t g_evpipe;
+static muggle_socket_context_t g_lctx, *g_hctx;
+static int g_lfd = -1, g_cfd = -1, g_ufd = -1;
 static int g_pipe[2] = { -1, -1 };
 static muggle_socket_evloop_handle_t g_seh;
 static muggle_socket_context_t g_sctx;
@@ -57,7 +64,8 @@ static void zero_all(void)
 	memset(&g_ht, 0, sizeof g_ht); memset(&g_ll, 0, sizeof g_ll); memset(&g_q, 0, sizeof g_q);
 	memset(&g_trie, 0, sizeof g_trie); memset(&g_sig, 0, sizeof g_sig); g_ev = NULL;
 	memset(&g_ctx, 0, sizeof g_ctx); memset(&g_seh, 0, sizeof g_seh); memset(&g_sctx, 0, sizeof g_sctx);
-	memset(&g_alog, 0, sizeof g_alog);
+	memset(&g_alog, 0, sizeof g_alog); memset(&g_ctx2, 0, sizeof g_ctx2); memset(&g_evpipe, 0, sizeof g_evpipe);
+	memset(&g_lctx, 0, sizeof g_lctx); g_hctx = NULL; g_lfd = g_cfd = g_ufd = -1;
 }
 
 static int cmp_int(const void *a, const void *b)
@@ -77,6 +85,10 @@ static int op_chan_nolock(void)
 {
 	return muggle_channel_init(&g_chan, 8, MUGGLE_CHANNEL_FLAG_WRITE_SINGLE | MUGGLE_CHANNEL_FLAG_READ_BUSY) == 0;
 }
+static int op_chan_rmutex(void)
+{
+	return muggle_channel_init(&g_chan, 8, MUGGLE_CHANNEL_FLAG_WRITE_SPIN | MUGGLE_CHANNEL_FLAG_READ_MUTEX) == 0;
+}
 static void d_chan(void) { muggle_channel_destroy(&g_chan); }
 static int op_rb(void) { return muggle_ring_buffer_init(&g_rb, 8, 0) == 0; }
 static void d_rb(void) { muggle_ring_buffer_destroy(&g_rb); }
@@ -93,6 +105,13 @@ static int op_mp_ensure(void) { return muggle_memory_pool_ensure_space(&g_mp, 8)
 static int pre_mp_full(void)
 {
 	if (!muggle_memory_pool_init(&g_mp, 4, 16)) return 0;
+	for (int i = 0; i < 4; i++) if (!muggle_memory_pool_alloc(&g_mp)) return 0;
+	return 1;
+}
+static int pre_mp_capped(void)
+{
+	if (!muggle_memory_pool_init(&g_mp, 4, 16)) return 0;
+	muggle_memory_pool_set_max_delta_cap(&g_mp, 2);
 	for (int i = 0; i < 4; i++) if (!muggle_memory_pool_alloc(&g_mp)) return 0;
 	return 1;
 }
@@ -121,6 +140,7 @@ static int pre_al_full(void)
 	return 1;
 }
 static int op_al_append(void) { return muggle_array_list_append(&g_al, -1, &g_keys[4]) != NULL; }
+static int op_al_insert(void) { return muggle_array_list_insert(&g_al, 0, &g_keys[4]) != NULL; }
 static void d_al(void) { muggle_array_list_destroy(&g_al, NULL, NULL); }
 
 static int op_heap_init(void) { return muggle_heap_init(&g_heap, cmp_int, 4) ? 1 : 0; }
@@ -163,6 +183,10 @@ static int pre_ht0(void)
 	return muggle_hash_table_init(&g_ht, 16, NULL, cmp_str, 0) && muggle_hash_table_put(&g_ht, "a", NULL);
 }
 static int op_ht_put(void) { return muggle_hash_table_put(&g_ht, "b", NULL) != NULL; }
+static int pre_ht1(void)      /* node pool of exactly one node, used up */
+{
+	return muggle_hash_table_init(&g_ht, 16, NULL, cmp_str, 1) && muggle_hash_table_put(&g_ht, "a", NULL);
+}
 static void d_ht(void) { muggle_hash_table_destroy(&g_ht, NULL, NULL, NULL, NULL); }
 
 static int op_ll_init(void) { return muggle_linked_list_init(&g_ll, 8) ? 1 : 0; }
@@ -171,17 +195,25 @@ static int pre_ll0(void)
 	return muggle_linked_list_init(&g_ll, 0) && muggle_linked_list_append(&g_ll, NULL, &g_keys[0]);
 }
 static int op_ll_append(void) { return muggle_linked_list_append(&g_ll, NULL, &g_keys[1]) != NULL; }
+static int op_ll_insert(void) { return muggle_linked_list_insert(&g_ll, NULL, &g_keys[1]) != NULL; }
+static int pre_ll1(void)
+{
+	return muggle_linked_list_init(&g_ll, 1) && muggle_linked_list_append(&g_ll, NULL, &g_keys[0]);
+}
 static void d_ll(void) { muggle_linked_list_destroy(&g_ll, NULL, NULL); }
 
 static int op_q_init(void) { return muggle_queue_init(&g_q, 8) ? 1 : 0; }
 static int pre_q0(void) { return muggle_queue_init(&g_q, 0) && muggle_queue_enqueue(&g_q, &g_keys[0]); }
 static int op_q_enqueue(void) { return muggle_queue_enqueue(&g_q, &g_keys[1]) != NULL; }
+static int pre_q1(void) { return muggle_queue_init(&g_q, 1) && muggle_queue_enqueue(&g_q, &g_keys[0]); }
 static void d_q(void) { muggle_queue_destroy(&g_q, NULL, NULL); }
 
 static int op_trie_init(void) { return muggle_trie_init(&g_trie, 8) ? 1 : 0; }
 static int pre_trie0(void) { return muggle_trie_init(&g_trie, 0) ? 1 : 0; }
 static int op_trie_insert1(void) { return muggle_trie_insert(&g_trie, "a", &g_keys[0]) != NULL; }
 static int op_trie_insert3(void) { return muggle_trie_insert(&g_trie, "abc", &g_keys[0]) != NULL; }
+static int pre_trie1(void) { return muggle_trie_init(&g_trie, 1) && muggle_trie_insert(&g_trie, "a", &g_keys[0]); }
+static int op_trie_insert_b(void) { return muggle_trie_insert(&g_trie, "b", &g_keys[1]) != NULL; }
 static void d_trie(void) { muggle_trie_destroy(&g_trie, NULL, NULL); }
 
 static int op_merge_sort(void)
@@ -195,16 +227,17 @@ static void d_none(void) { }
 static int op_sig(void) { return muggle_ev_signal_init(&g_sig) == 0; }
 static void d_sig(void) { muggle_ev_signal_destroy(&g_sig); }
 
-static int evloop_new_of(int type, int pool)
+static int evloop_new_hints(int type, int pool, int hints)
 {
 	muggle_event_loop_init_args_t args;
 	memset(&args, 0, sizeof(args));
 	args.evloop_type = type;
-	args.hints_max_fd = 8;
+	args.hints_max_fd = hints;
 	args.use_mem_pool = pool;
 	g_ev = muggle_evloop_new(&args);
 	return g_ev != NULL;
 }
+static int evloop_new_of(int type, int pool) { return evloop_new_hints(type, pool, 8); }
 static int op_ev_epoll(void) { return evloop_new_of(MUGGLE_EVLOOP_TYPE_EPOLL, 0); }
 static int op_ev_poll(void) { return evloop_new_of(MUGGLE_EVLOOP_TYPE_POLL, 0); }
 static int op_ev_select(void) { return evloop_new_of(MUGGLE_EVLOOP_TYPE_SELECT, 0); }
@@ -215,6 +248,19 @@ static int op_ev_add_ctx(void)
 	muggle_ev_ctx_init(&g_ctx, g_pipe[0], NULL);
 	return muggle_evloop_add_ctx(g_ev, &g_ctx) == 0;
 }
+
+static int pre_ev_pool1(void)     /* ctx_list node pool of exactly one node, used up */
+{
+	return evloop_new_hints(MUGGLE_EVLOOP_TYPE_EPOLL, 1, 1) && op_ev_add_ctx();
+}
+static int op_ev_add_ctx2(void)
+{
+	muggle_ev_ctx_init(&g_ctx2, g_pipe[1], NULL);
+	return muggle_evloop_add_ctx(g_ev, &g_ctx2) == 0;
+}
+
+static int op_evpipe(void) { return muggle_socket_evloop_pipe_init(&g_evpipe) == 0; }
+static void d_evpipe(void) { muggle_socket_evloop_pipe_destroy(&g_evpipe); }
 
 static int op_seh_init(void) { return muggle_socket_evloop_handle_init(&g_seh) == 0; }
 static void d_seh(void) { muggle_socket_evloop_handle_destroy(&g_seh); }
@@ -227,6 +273,49 @@ static int pre_seh_ev(void)
 }
 static int op_seh_add_ctx(void) { muggle_socket_evloop_add_ctx(g_ev, &g_sctx); return 1; /* void API */ }
 static void d_seh_ev(void) { d_seh(); d_ev(); }
+
+/* what muggle_evloop_run does when the loop exits: cb_clear for every registered context */
+static void clear_ctxs(void)
+{
+	muggle_linked_list_node_t *n = muggle_linked_list_first(g_ev->ctx_list);
+	for (; n; n = muggle_linked_list_next(g_ev->ctx_list, n)) g_ev->cb_clear(g_ev, (muggle_event_context_t *)n->data);
+}
+/* accept path of the evloop's cb_read: loopback listener with one pending connection */
+static int pre_accept(void)
+{
+	struct sockaddr_in a;
+	socklen_t al = sizeof(a);
+	if (!pre_seh_ev()) return 0;
+	g_lfd = socket(AF_INET, SOCK_STREAM, 0);
+	if (g_lfd < 0) return 0;
+	memset(&a, 0, sizeof(a));
+	a.sin_family = AF_INET;
+	a.sin_addr.s_addr = htonl(INADDR_LOOPBACK);
+	a.sin_port = 0;
+	if (bind(g_lfd, (struct sockaddr *)&a, sizeof(a)) != 0 || listen(g_lfd, 4) != 0) return 0;
+	if (getsockname(g_lfd, (struct sockaddr *)&a, &al) != 0) return 0;
+	fcntl(g_lfd, F_SETFL, fcntl(g_lfd, F_GETFL, 0) | O_NONBLOCK);
+	g_cfd = socket(AF_INET, SOCK_STREAM, 0);
+	if (g_cfd < 0 || connect(g_cfd, (struct sockaddr *)&a, sizeof(a)) != 0) return 0;
+	muggle_socket_ctx_init(&g_lctx, g_lfd, NULL, MUGGLE_SOCKET_CTX_TYPE_TCP_LISTEN);
+	return 1;
+}
+static int op_accept(void) { g_ev->cb_read(g_ev, (muggle_event_context_t *)&g_lctx); return 1; /* callback: void */ }
+static void d_accept(void) { clear_ctxs(); d_seh(); d_ev(); close(g_lfd); close(g_cfd); }
+/* cb_wake with one context handed over through muggle_socket_evloop_add_ctx */
+static int pre_wake(void)
+{
+	if (!pre_seh_ev()) return 0;
+	g_ufd = socket(AF_INET, SOCK_DGRAM, 0);
+	if (g_ufd < 0) return 0;
+	g_hctx = (muggle_socket_context_t *)malloc(sizeof(*g_hctx));
+	if (!g_hctx) return 0;
+	muggle_socket_ctx_init(g_hctx, g_ufd, NULL, MUGGLE_SOCKET_CTX_TYPE_UDP);
+	muggle_socket_evloop_add_ctx(g_ev, g_hctx);
+	return muggle_queue_size(g_seh.ctx_queue) == 1;
+}
+static int op_wake(void) { g_ev->cb_wake(g_ev); return 1; /* callback: void */ }
+static void d_wake(void) { clear_ctxs(); d_seh(); d_ev(); }
 
 static int op_alog_init(void) { return muggle_async_logger_init(&g_alog, 8) == 0; }
 static int pre_alog(void)
@@ -302,6 +391,20 @@ static const struct inst g_inst[] = {
 	{ "async_logger_init", NULL, op_alog_init, d_alog, 0, 1 },
 	{ "async_logger_log", pre_alog, op_alog_log, d_alog, 1, 1 },
 	{ "channel_init_default", NULL, op_chan_default, d_chan, 1, 0 },
+	{ "array_list_insert_grow", pre_al_full, op_al_insert, d_al, 1, 0 },
+	{ "linked_list_insert", pre_ll0, op_ll_insert, d_ll, 1, 0 },
+	{ "linked_list_append_pool_grow", pre_ll1, op_ll_append, d_ll, 1, 0 },
+	{ "hash_table_put_pool_grow", pre_ht1, op_ht_put, d_ht, 1, 0 },
+	{ "queue_enqueue_pool_grow", pre_q1, op_q_enqueue, d_q, 1, 0 },
+	{ "trie_insert_pool_grow", pre_trie1, op_trie_insert_b, d_trie, 1, 0 },
+	{ "memory_pool_alloc_grow_capped", pre_mp_capped, op_mp_alloc, d_mp, 1, 0 },
+	{ "evloop_add_ctx_poll", op_ev_poll, op_ev_add_ctx, d_ev, 1, 0 },
+	{ "evloop_add_ctx_select", op_ev_select, op_ev_add_ctx, d_ev, 1, 0 },
+	{ "evloop_add_ctx_mempool_grow", pre_ev_pool1, op_ev_add_ctx2, d_ev, 1, 0 },
+	{ "socket_evloop_pipe_init", NULL, op_evpipe, d_evpipe, 1, 0 },
+	{ "socket_evloop_on_read_accept", pre_accept, op_accept, d_accept, 1, 0 },
+	{ "socket_evloop_on_wake", pre_wake, op_wake, d_wake, 1, 0 },
+	{ "channel_init_rmutex", NULL, op_chan_rmutex, d_chan, 1, 0 },
 };
 #define N_INST ((int)(sizeof(g_inst) / sizeof(g_inst[0])))
 
